@@ -75,6 +75,10 @@ def dispatchC18 : List Str → Option (List Str)
         match declVarsOpt (boolOf f) s with
         | .ok vs => some ("ok".toList :: (vs.map varFields).flatten)
         | .error e => some ["err".toList, rerrName18 e]
+      | [f, j, s] =>
+        match declVarsOpt (boolOf f) s (boolOf j) with
+        | .ok vs => some ("ok".toList :: (vs.map varFields).flatten)
+        | .error e => some ["err".toList, rerrName18 e]
       | _ => some ["bad-request".toList]
     else if cmd == "c18.kind".toList then
       match args with
